@@ -5,7 +5,10 @@ import MakoModel.Filters.Sites
 
 Every theorem quantifies over all strings `s : List Char` (all Unicode scalar values, any length).
 Models: `MakoModel/Filters/Model.lean`; regenerated tables: `MakoModel/Generated/Filters.lean`.
-`Spec.*` are the reference decoders / vocabulary of the statements.
+`Spec.*` are the reference decoders / vocabulary of the statements; `Filters/Sites.lean` models the application
+sites (`filter=` on `<%def>` / `<%block>` × `buffered=` × `cached=`).
+
+OPEN: nothing – every statement below is the full-strength one; no finding of C10 is recorded as open.
 -/
 namespace MakoModel.C10
 open MakoModel.Filters MakoModel.Generated.Filters
@@ -210,7 +213,7 @@ theorem htmlentityreplace_refs_decode (c : Char) (h : 128 ≤ c.toNat) :
 ways codecs report errors (maximal run / one character): encoding with the handler succeeds, the output is the
 text with each unencodable character replaced by its reference and everything else unchanged
 (`Spec.HandlerFaithful`), every character of that output is encodable, and every reference decodes back to
-the character it replaced.  (Full statement; finding F3 was repaired in /repo by f992316.) -/
+the character it replaced. -/
 theorem htmlentityreplace_total_and_faithful (enc : Char → Bool)
     (hascii : ∀ c : Char, c.toNat < 128 → enc c = true) (grouped : Bool) (s : List Char) :
     Spec.HandlerFaithful enc grouped s ∧
@@ -232,7 +235,12 @@ theorem htmlentityreplace_total_and_faithful (enc : Char → Bool)
 open MakoModel.Filters.Sites in
 /-- at every site, in every mode (`buffered=`, `cached=`, both, neither), on the first render and on a cache hit,
 the tag's filter is applied exactly once to the body text (followed by `buffer_filters` iff the callable is
-buffered); without `filter=` the text is not touched by it -/
+buffered); without `filter=` the text is not touched by it.
+Where the content is: the `.expr` case holds by definition (`renderTwice .expr` *is* `(f t, f t)`; the expression
+sites are checked by the oracle only).  The `.defLike` case carries the statement: it is the case analysis over the
+eight flag combinations of the transcription of `write_def_finish` + the cache decorator (`defFinish`,
+`callOnce`) – a decorator that stored or returned the unfiltered text, filtered twice, or skipped the filter on the
+hit would falsify it; `corr.sites` ties that transcription to the rendered output. -/
 theorem filter_once_at_every_site (site : Site) (f bufF : List Char → List Char) (t : List Char) :
     renderTwice site f bufF t =
       (site.post bufF (if site.filtered then f t else t), site.post bufF (if site.filtered then f t else t)) :=
@@ -260,7 +268,8 @@ theorem xml_no_markup_at_every_site (site : Site) (hsite : site.filtered = true)
     (∀ c ∈ (renderTwice site xmlEscape id t).2, c ∉ Spec.markup) :=
   guarantee_at_every_site (fun _ o => ∀ c ∈ o, c ∉ Spec.markup) xmlEscape (fun t => (xml_no_markup t).1) site hsite t
 
-/-- `site.filtered = true` is satisfiable by the site the seeded defect C10g concerned -/
+/-- `site.filtered = true` is satisfiable, e.g. by a def/block carrying `filter=` and `cached="True"` (not buffered):
+the site where filtering has to happen inside the cached callable, before the value is stored -/
 example : (Sites.Site.defLike ⟨false, true, true⟩).filtered = true := rfl
 
 /-! ## Non-vacuity: the hypotheses above are satisfiable by non-trivial instances -/
